@@ -94,9 +94,9 @@ type refCache struct {
 	// lru: order[0] = most recent
 	lru []string
 	// lfu
-	freq  map[string]int
-	fseq  map[string]int // sequence number of the last promotion (smaller = earlier in its frequency list)
-	seq   int
+	freq map[string]int
+	fseq map[string]int // sequence number of the last promotion (smaller = earlier in its frequency list)
+	seq  int
 	// slru
 	prob, prot []string // index 0 = front (most recent)
 	protCap    int
